@@ -9,10 +9,11 @@ CONSTANTS
   ReqMode = "star"
   CfgSamplers = {"DeterministicSampler", "DynamicSampler", "EMADynamicSampler", "EMAThroughputSampler", "WindowedThroughputSampler", "TotalThroughputSampler", "RulesBasedSampler"}
   CondOps = {"=", "!=", ">", "<", ">=", "<=", "starts-with", "contains", "does-not-contain", "exists", "not-exists", "has-root-span", "matches", "in", "not-in"}
-  CondVals = {"absent", "str", "intlist"}
+  CondVals = {"absent", "str", "intlist", "nestedlist"}
   CondTypes = {"absent", "string", "int", "float", "bool"}
   RuleKinds = {"list"}
   CondScopes = {"trace"}
+  FieldVals = {"fv-str", "fv-int", "fv-hugenum", "fv-float", "fv-bool", "fv-nil", "fv-array", "fv-nestedarray", "fv-map", "fv-absent"}
   Faithful = TRUE
 INVARIANTS TypeOK OnlyListed
 ACTION_CONSTRAINT Dump
